@@ -418,7 +418,7 @@ theorem nm_wgUpdates : NonMainPhase flushWgUpdates := by
   · simp
 
 def restPhases : List Phase :=
-  [flushGen .sa, flushGen .ns, flushRouteRemoves, flushVTEPRemoves, flushVTEPAdds, flushRouteAdds,
+  [flushGen .sa, flushGen .ns, flushRouteRemoves, flushVTEPAdds, flushRouteAdds, flushVTEPRemoves,
    flushWgDeletes, flushWgUpdates, flushGen .host, flushGen .pool, flushEncap, flushBGP, flushGen .svc]
 
 theorem nm_rest : NonMainPhase (runPhases restPhases) := by
@@ -429,9 +429,9 @@ theorem nm_rest : NonMainPhase (runPhases restPhases) := by
   · exact nm_gen _
   · exact nm_gen _
   · exact nm_routeRemoves
-  · exact nm_vtepRemoves
   · exact nm_vtepAdds
   · exact nm_routeAdds
+  · exact nm_vtepRemoves
   · exact nm_wgDeletes
   · exact nm_wgUpdates
   · exact nm_gen _
